@@ -1006,8 +1006,92 @@ func listContents(v ssa.Value) ([]listElem, bool) {
 // enumPaths lists the acyclic paths from the entry of fn to the returns accepted by target, each as the branch
 // conditions taken along it (phi-tests resolved edge by edge, as in reach). complete is false when the limit was hit.
 func enumPaths(fn *ssa.Function, target func(*ssa.Return) bool, limit int) (paths [][]condEdge, complete bool) {
+	ps, complete := enumPathsX(fn, target, limit)
+	for _, p := range ps {
+		paths = append(paths, p.conds)
+	}
+	return paths, complete
+}
+
+// pathInfo is one acyclic path: the branch conditions taken and the blocks passed through, in order.
+type pathInfo struct {
+	conds  []condEdge
+	blocks []*ssa.BasicBlock
+	ret    *ssa.Return
+}
+
+// pathValue: the value v has on path p: a phi is what came in over the edge the path took (looked through repeatedly).
+func (p pathInfo) pathValue(v ssa.Value) ssa.Value {
+	for d := 0; d < 8; d++ {
+		phi, ok := v.(*ssa.Phi)
+		if !ok {
+			return v
+		}
+		idx := -1
+		for i := len(p.blocks) - 1; i >= 1; i-- {
+			if p.blocks[i] == phi.Block() {
+				for j, q := range phi.Block().Preds {
+					if q == p.blocks[i-1] {
+						idx = j
+					}
+				}
+				break
+			}
+		}
+		if idx < 0 || idx >= len(phi.Edges) {
+			return v
+		}
+		v = phi.Edges[idx]
+	}
+	return v
+}
+
+// passes: some instruction of the path's blocks satisfies pred.
+func (p pathInfo) passes(pred func(ssa.Instruction) bool) bool {
+	for _, b := range p.blocks {
+		for _, in := range b.Instrs {
+			if pred(in) {
+				return true
+			}
+		}
+	}
+	return false
+}
+
+// enumPathsX: like enumPaths, with the blocks of each path; a condition value that was already decided earlier on the path
+// is followed only the same way again (`if err != nil { cleanup }; ...; if err != nil { return err }`).
+func enumPathsX(fn *ssa.Function, target func(*ssa.Return) bool, limit int) (paths []pathInfo, complete bool) {
 	complete = true
 	onPath := map[*ssa.BasicBlock]bool{}
+	// (conditions are compared by what they compare: go/ssa does not share `err != nil` computed twice)
+	type condKey struct {
+		op   token.Token
+		x, y ssa.Value
+		v    ssa.Value
+	}
+	keyOf := func(v ssa.Value) condKey {
+		if bo, ok := v.(*ssa.BinOp); ok {
+			switch bo.Op {
+			case token.EQL, token.NEQ, token.LSS, token.LEQ, token.GTR, token.GEQ:
+				x, y := bo.X, bo.Y
+				if _, isC := x.(*ssa.Const); isC {
+					if _, isC2 := y.(*ssa.Const); !isC2 && (bo.Op == token.EQL || bo.Op == token.NEQ) {
+						x, y = y, x
+					}
+				}
+				if cy, isC := y.(*ssa.Const); isC {
+					// constants are not shared either: compare nil / literal by value
+					if cy.Value == nil {
+						return condKey{op: bo.Op, x: x, v: nil}
+					}
+				}
+				return condKey{op: bo.Op, x: x, y: y}
+			}
+		}
+		return condKey{v: v}
+	}
+	decided := map[condKey]bool{}
+	var blocks []*ssa.BasicBlock
 	var walk func(pred, b *ssa.BasicBlock, conds []condEdge)
 	walk = func(pred, b *ssa.BasicBlock, conds []condEdge) {
 		if !complete || onPath[b] {
@@ -1020,11 +1104,13 @@ func enumPaths(fn *ssa.Function, target func(*ssa.Return) bool, limit int) (path
 		if len(b.Instrs) == 0 {
 			return
 		}
+		blocks = append(blocks, b)
+		defer func() { blocks = blocks[:len(blocks)-1] }()
 		last := b.Instrs[len(b.Instrs)-1]
 		switch x := last.(type) {
 		case *ssa.Return:
 			if target(x) && (fn.Recover == nil || b != fn.Recover) {
-				paths = append(paths, append([]condEdge{}, conds...))
+				paths = append(paths, pathInfo{append([]condEdge{}, conds...), append([]*ssa.BasicBlock{}, blocks...), x})
 			}
 			return
 		case *ssa.Panic:
@@ -1045,7 +1131,40 @@ func enumPaths(fn *ssa.Function, target func(*ssa.Return) bool, limit int) (path
 						}
 					}
 				}
-				next = append(append([]condEdge{}, conds...), condEdge{cond: cond, taken: sx == b.Succs[0], ifIn: iff})
+				taken := sx == b.Succs[0]
+				mine := false
+				// (a comparison of a value merged in this block is, on this path, a comparison of what came in)
+				if bo, isBo := cond.(*ssa.BinOp); isBo && pred != nil {
+					sub := func(v ssa.Value) ssa.Value {
+						if phi, isPhi := v.(*ssa.Phi); isPhi && phi.Block() == b {
+							for i, q := range b.Preds {
+								if q == pred && i < len(phi.Edges) {
+									return phi.Edges[i]
+								}
+							}
+						}
+						return v
+					}
+					if nx, ny := sub(bo.X), sub(bo.Y); nx != bo.X || ny != bo.Y {
+						cond = &ssa.BinOp{Op: bo.Op, X: nx, Y: ny}
+					}
+				}
+				if _, isConst := cond.(*ssa.Const); !isConst {
+					if was, seen := decided[keyOf(cond)]; seen {
+						if was != taken {
+							continue // the same value was tested earlier on this path with the other outcome
+						}
+					} else {
+						decided[keyOf(cond)] = taken
+						mine = true
+					}
+				}
+				next = append(append([]condEdge{}, conds...), condEdge{cond: cond, taken: taken, ifIn: iff})
+				walk(b, sx, next)
+				if mine {
+					delete(decided, keyOf(cond))
+				}
+				continue
 			}
 			walk(b, sx, next)
 		}
